@@ -368,6 +368,11 @@ void ZSTD_copyDCtx(ZSTD_DCtx* dstDCtx, const ZSTD_DCtx* srcDCtx)
     ZSTD_REBASE_TABLE_PTR(OFTptr, const ZSTD_seqSymbol*);
     ZSTD_REBASE_TABLE_PTR(HUFptr, const HUF_DTable*);
 #undef ZSTD_REBASE_TABLE_PTR
+    /* a dictionary that the source owns (loaded, or prefix) is not inherited : it can be freed under the copy */
+    if (srcDCtx->ddict != NULL && srcDCtx->ddict == srcDCtx->ddictLocal) {
+        dstDCtx->ddict = NULL;
+        dstDCtx->dictUses = ZSTD_dont_use;
+    }
 }
 
 /* Given a dctx with a digested frame params, re-selects the correct ZSTD_DDict based on
